@@ -214,9 +214,17 @@ def main():
             chk.add(stream_function_velocity_2d, real_t=rt, shape=sh)
             chk.add(forcing_update_is_library_curl, real_t=rt, dim=2, shape=sh)
         chk.add(divergence_monitor, real_t=rt, shape=(4, 3, 5))
+        if rt == "float64":
+            # long thin grids: each axis in turn beyond any plausible slab / blocking threshold (70 = 64+6 > 2*32+2)
+            for sh in ((70, 4, 3), (3, 70, 4), (4, 3, 70)):
+                chk.add(div_curl_zero, real_t=rt, shape=sh, reset=False)
+                chk.add(forcing_update_is_library_curl, real_t=rt, dim=3, shape=sh)
+            for sh in ((70, 4), (4, 70)):
+                chk.add(stream_function_velocity_2d, real_t=rt, shape=sh)
+                chk.add(forcing_update_is_library_curl, real_t=rt, dim=2, shape=sh)
         chk.add(forcing_update_called_again_with_another_field, real_t=rt, dim=2, shape=s2[0])
         chk.add(forcing_update_called_again_with_another_field, real_t=rt, dim=3, shape=s3[0])
-    chk.bounds = [f"3D grids {s3}, 2D grids {s2}, divergence monitor on (4,3,5)", f"precisions {precisions}", "all cell values and prefactors symbolic", "call history: two calls of one kernel object with different forcing buffers passed through temporary wrappers (identity reuse forced where CPython allows)"]
+    chk.bounds = [f"3D grids {s3}, 2D grids {s2}, divergence monitor on (4,3,5)", "long thin grids (70,4,3),(3,70,4),(4,3,70) / (70,4),(4,70)", f"precisions {precisions}", "all cell values and prefactors symbolic", "call history: two calls of one kernel object with different forcing buffers passed through temporary wrappers (identity reuse forced where CPython allows)"]
     chk.outside = ["larger grids (the identities are per-cell stencil compositions: every interior stencil-of-stencils pattern occurs on these grids)", "rounding"]
     chk.assumptions = ["exact real arithmetic", "sqrt in the divergence monitor: s >= 0 and s^2 = radicand"]
     chk.run()
